@@ -172,24 +172,33 @@ def gen_case(rng, law=None, Kp=None, group=None, hi=None):
 class C06(Prop):
     ID = "C06"
     SOURCES = SOURCES
-    LEAN_MODULES = ["Proofs.C06"]
+    LEAN_MODULES = ["Proofs.C06", "Proofs.C06SeegerBeste"]
     THEOREMS = [f"PylifeVerif.C06.{t}" for t in [
         "neuber_bracket", "neuber_strictMono_in_stress", "neuber_exists_unique_root", "neuber_root_odd",
         "neuber_root_strictMono_in_load", "neuber_load_inverse",
         "neuber_secondary_masing", "neuber_secondary_exists_unique_root", "neuber_secondary_odd_strictMono",
         "neuber_secondary_load_inverse",
-        "seegerBeste_root_odd", "seegerBeste_secondary_masing", "seegerBeste_domain_partial", "seegerBeste_root_iff_partial"]]
+        "seegerBeste_root_odd", "seegerBeste_secondary_masing", "seegerBeste_domain_partial", "seegerBeste_root_iff_partial",
+        "zero_load",
+        # Seeger-Beste on the open bracket (Proofs/C06SeegerBeste.lean)
+        "seegerBeste_middle_limit",
+        "seegerBeste_bracket",
+        "seegerBeste_exists_root",
+        "seegerBeste_strictMono_in_stress",
+        "seegerBeste_exists_unique_root",
+        "seegerBeste_exists_unique_root_neg",
+        "seegerBeste_root_strictMono_in_load",
+        "seegerBeste_load_inverse",
+        "seegerBeste_secondary_exists_unique_root",
+        "seegerBeste_secondary_load_inverse",
+    ]]
     PARTIAL = {
-        "PylifeVerif.C06.seegerBeste_domain_partial":
-            "Seeger-Beste: proved are the symmetry (root odd in the load, seegerBeste_root_odd), the Masing reduction of the secondary "
-            "equation to the primary one (seegerBeste_secondary_masing), and - this theorem - that on L/K_p < sigma < L the u-term lies in "
-            "(0, pi/2), cos u > 0, no np.divide fall-back is taken and the coded function is eq. 2.8-42.  NOT proved: the bracket "
-            "(as limits: g -> -1 at sigma -> L/K_p, g -> eps(L)/(K_p e*(L)) - 1 >= 0 at sigma -> L needs lim 2/u^2 ln(1/cos u) = 1; at the end "
-            "points themselves the code evaluates fall-back values), monotonicity in sigma and in the load, hence existence / uniqueness / "
-            "inverse of the Seeger-Beste root - measured per run by the oracle against an independent bisection",
-        "PylifeVerif.C06.seegerBeste_root_iff_partial":
-            "on the open bracket middle term and Neuber term are positive, so the quotient form divides by nothing that vanishes, is > -1 "
-            "and sigma is a root iff eps(sigma) = middle term x Neuber term; existence and uniqueness of such a sigma are NOT proved (see above)",
+        "PylifeVerif.C06.seegerBeste_exists_unique_root":
+            "Seeger-Beste: existence, uniqueness, monotonicity in stress and load and the inverse are proved for the mathematical equation on the "
+            "OPEN bracket L/K_p < sigma < L (Proofs/C06SeegerBeste.lean; lim 2/u^2 ln(1/cos u) = 1 at 0+ and +inf at (pi/2)-).  Not claimed: the end "
+            "points themselves (there the code evaluates np.divide fall-back values that differ from the limits), roots outside the bracket, and the "
+            "behaviour of scipy's secant/Newton iteration - the solver results are measured per run against an independent bisection and four solver "
+            "defects are open known findings",
     }
     RULE = ("case = law (extended Neuber / Seeger-Beste) x FKM-estimated material (3 groups, R_m in [200, 2000]) x K_p in "
             "{1, 1.001, 1.5, 3.5, 10} (Seeger-Beste > 1) or random x tolerance rtol = tol in [1e-10, 1e-4] x spaced grid of loads up to "
@@ -198,7 +207,7 @@ class C06(Prop):
             "/ at the ends of the bracket, at zero stress and for negative arguments; extended Neuber forward and backward values vs "
             "the model's bisection roots within tol + rtol |root|.  Oracle (no Lean): reference root by an independent bisection; "
             "|value - root| <= tol + rtol |root|; |L|/K_p <= |value| <= |L| (within the tolerance); odd; increasing on the grid; "
-            "load(stress(L)) = L; ndarray = Series bit for bit, scalar = array within the tolerance; every element of a vector with zeros as its scalar call (zero -> zero, nan is a failure); a scalar backward call returns the load or raises; solver RuntimeErrors counted.  "
+            "load(stress(L)) = L; ndarray = Series bit for bit, scalar = array within the tolerance; every element of a vector with zeros as its scalar call (zero -> zero, nan is a failure); a scalar backward call returns the load or raises; a zero load / stress (scalar +0.0, -0.0, or an element of a vector, all four functions of both laws) gives zero, never nan or an error; solver RuntimeErrors counted.  "
             "Non-trivial = every case in which at least one solver call returned")
     ASSUMPTIONS = [
         "C06: theorems are over the reals about the defining functions as coded (incl. the np.divide fall-backs); what "
@@ -208,6 +217,9 @@ class C06(Prop):
         "C06: 'to within the requested tolerance' is read as |returned - exact root| <= tol + rtol |root| with rtol = tol; "
         "'element-wise identical' as bit-identical for ndarray vs Series (same code path) and equal within that tolerance for "
         "scalar vs array (scipy's scalar and vectorised iterations stop at different iterates)",
+        "C06: a load (stress) of exactly zero belongs to the quantifier ('every load ... both signs'): the stress (load) is zero "
+        "(theorem zero_load: the equations are trivially satisfied there); for it a RuntimeError of the solver is a failure, not a "
+        "counted solver failure, because nothing has to be solved",
         "C06: uniqueness is among stresses (loads) of the load's (stress's) sign: F(-s, L) = -F(s, L) and F(s, -L) = F(s, L), the "
         "solver's start value selects the sign",
     ]
@@ -234,7 +246,7 @@ class C06(Prop):
                     c = gen_case(rng, "neuber", Kp, group=g, hi=[3.0, 4.0, 5.0, 6.0])
                     c["tol"] = 1e-4
                     yield c
-        for _ in range(220 if not big else 1500):
+        for _ in range(150 if not big else 1500):
             yield gen_case(rng)
 
     # -------------------------------------------------------------- running the real code once per case
@@ -264,13 +276,17 @@ class C06(Prop):
                 else:       # "only implemented for the scalar case"
                     back = [call(g, float(v), t) for v in a[:len(Ls)]]
                     back = [b[0] if isinstance(b, list) else b for b in back]
-            zero = hi = None
+            hi = None
+            zl = zero_vector(Ls)
+            g = fn(law, "load", br)
+            # the same vector on the stress axis for the backward functions (reference roots, zeros kept)
+            sz = [0.0 * x if x == 0 else math.copysign(ref_root(case, br, abs(x)), x) for x in zl]
+            zero = {"loads": zl, "arr": call(f, np.array(zl), t), "ser": call(f, pd.Series(zl), t), "list": call(f, list(zl), t),
+                    "scalar": [call(f, x, t) for x in zl],
+                    "stresses": sz, "back_arr": call(g, np.array(sz), t), "back_ser": call(g, pd.Series(sz), t),
+                    "back_scalar0": [call(g, 0.0, t), call(g, -0.0, t)]}
             if case["law"] == "neuber":
-                zl = zero_vector(Ls)
-                zero = {"loads": zl, "arr": call(f, np.array(zl), t), "ser": call(f, pd.Series(zl), t), "list": call(f, list(zl), t),
-                        "scalar": [call(f, x, t) for x in zl]}
                 hi = []
-                g = fn(law, "load", br)
                 for L in case.get("hi", []):
                     for L1 in (float(L) * br, -float(L) * br):        # load ranges of the secondary branch reach twice as far
                         v = call(f, L1, t)
@@ -467,6 +483,10 @@ class C06(Prop):
             # --- a vector that holds exact zeros among other loads: every element as for the scalar call, zero -> zero
             z = r.get("zero")
             if z is not None:
+                d = self._oracle_zero(case, br, what, name, z)
+                if d:
+                    return d
+            if z is not None and name == "neuber":
                 refz = [0.0 if x == 0 else math.copysign(ref_root(case, br, abs(x)), x) for x in z["loads"]]
                 for cname in ("arr", "ser", "list"):
                     got = z[cname]
@@ -517,7 +537,62 @@ class C06(Prop):
                     continue
                 if abs(bk - L) > 6 * (t + t * abs(L)) + 6 * tv:
                     return (f"{what}: load(stress({L!r})) = load({v!r}) = {bk!r}",
-                            ("neuber-backward-unconverged" if abs(bk - L) <= 2e-3 * abs(L) else "neuber-inverse") if name == "neuber" else sb_class(f"{name}-tolerance", abs(bk - L) / abs(L), Kp))
+                            self._neuber_backward_class(case, br, v, abs(bk - L), L) if name == "neuber" else sb_class(f"{name}-tolerance", abs(bk - L) / abs(L), Kp))
+        return None
+
+    def _neuber_backward_class(self, case, br, stress, dev, L):
+        """Class of an ARRAY result of ExtendedNeuber.load that misses the load.  The recorded defect is: the vectorised Newton
+        iteration returns elements that have not converged after 20 iterations without an error.  It is recognised by a small miss
+        (<= 0.2 %), or - for a larger one - by the scalar call on the same stress reporting the non-convergence (RuntimeError).
+        A miss while the scalar call returns is a different failure."""
+        if dev <= 2e-3 * abs(L):
+            return "neuber-backward-unconverged"
+        sc = call(fn(make_law(case), "load", br), float(stress), case["tol"])
+        if sc == "RuntimeError":
+            self._count("neuber_backward_array_unconverged_confirmed_by_scalar_raise")
+            return "neuber-backward-unconverged"
+        return "neuber-inverse"
+
+    def _oracle_zero(self, case, br, what, name, z):
+        """A load (stress) of exactly zero, alone or inside a vector: the stress (load) is zero - never nan, never an error
+        (the defining equations are trivially satisfied there).  Extended Neuber forward is judged by the caller."""
+        t, Kp = case["tol"], case["Kp"]
+        zcls = "neuber-backward-zero-nan" if name == "neuber" else "seegerbeste-zero-load-nan"
+        refz = [0.0 if x == 0 else math.copysign(ref_root(case, br, abs(x)), x) for x in z["loads"]]
+        runs = [("load" if br == 1 else "load_secondary_branch", z["stresses"], z["loads"], [z["back_arr"], z["back_ser"]], z["back_scalar0"])]
+        if name != "neuber":
+            runs.append(("stress" if br == 1 else "stress_secondary_branch", z["loads"], refz, [z["arr"], z["ser"], z["list"]],
+                         [z["scalar"][1], z["scalar"][3]]))
+        for fname, xs, want, results, scalar0 in runs:
+            for sc, x in zip(scalar0, (0.0, -0.0)):
+                if not (isinstance(sc, list) and sc[0] == 0):
+                    return (f"{what}: {fname}({x!r}) {'raises ' + sc if isinstance(sc, str) else 'returns ' + repr(sc[0])} instead of 0", zcls)
+            for got in results:
+                if isinstance(got, str):
+                    if got == "RuntimeError":
+                        self._count(f"{name}_solver_raises_zero_vector")
+                        continue
+                    return (f"{what}: {fname}({xs!r}) raises {got}", zcls)
+                self._count(f"{name}_zero_vector_elements_checked", len(got))
+                if len(got) != len(xs):
+                    return (f"{what}: {fname}({xs!r}) returns {len(got)} values", zcls)
+                for x, v, w in zip(xs, got, want):
+                    if x == 0:
+                        if v != 0:
+                            return (f"{what}: {fname} of the vector {xs!r} gives {v!r} for the element {x!r} instead of 0 "
+                                    f"(the scalar call gives {scalar0[0][0]!r})", zcls)
+                        continue
+                    dev = abs(v - w) if v == v else math.inf
+                    if fname.startswith("load"):
+                        if dev > 12 * (t + t * abs(w)):
+                            if name == "neuber":
+                                return (f"{what}: {fname}({xs!r}) gives {v!r} for the stress {x!r} of the load {w!r}",
+                                        self._neuber_backward_class(case, br, x, dev, w))
+                            return (f"{what}: {fname}({xs!r}) gives {v!r} for the stress {x!r} of the load {w!r}",
+                                    sb_class("seegerbeste-tolerance", dev / abs(w), Kp))
+                    elif dev > t + t * abs(w):
+                        return (f"{what}: {fname}({xs!r}) gives {v!r} for the load {x!r}, root {w!r}",
+                                sb_class("seegerbeste-tolerance", dev / abs(w), Kp))
         return None
 
     def shrink(self, case, still_fails):
